@@ -96,9 +96,9 @@ struct RealmBase
 		if (_dtype == dt_set)
 		{
 			const T *rng(static_cast<const T*>(_range)), *res(std::lower_bound(rng, rng + _sz, what));
-			return res != rng + _sz ? res - rng : -1;
+			return res != rng + _sz && !(what < *res) ? res - rng : -1; // lower_bound also stops at the next greater member
 		}
-		return 0;
+		return is_valid(what) ? 0 : -1;
 	}
 
 	/*! Printer helper
